@@ -166,11 +166,23 @@ def run_script(script, period=0.125, env_table=None, crash_rec=None, real=False,
             timing.time = simtime
         sk = skedding.Skedder(name="sim", period=period, stamp=stamp, real=real, filepath="/sim/verif_plan.flo")
         res.skedder = sk
+        con = getConsole()
+        errors = []
+        orig_terse = con.terse
+
+        def capture(msg):
+            if "Error" in msg:
+                errors.append(msg.strip().splitlines()[0][:200])
+        con.terse = capture
         try:
             res.built = bool(sk.build())
         except Exception as ex:
             res.exc = ("build", ex)
+            res.build_errors = errors
             return res
+        finally:
+            del con.terse
+        res.build_errors = errors
         if not res.built:
             return res
         house = sk.houses[0]
